@@ -86,6 +86,18 @@ def run(tier, seed):
                               "f0": b["f0"], "layers": b["layers"], "openings": b["openings"], "rem_kind": b["rem"], "remc": b["remc"], "hit": b["hit"],
                               "model_verdict": b["verdict"]})
                 i += 1
+    # degree bounds whose number of coefficients m is not a power of two: honest proofs for polynomials with m+1 .. next_pow2(m)
+    # coefficients differ from an admissible one only in remainder coefficients above the bound
+    bounds = [p for p in r.printed if p.get("kind") == "bound" and p["lb"] >= 2]
+    if tier == "quick":
+        bounds = bounds[seed % 6::6]
+    for s in bounds:
+        for k in sorted({1, s["excess"], (s["excess"] + 1) // 2}):
+            f, h, e = c15.COMBOS[i % len(c15.COMBOS)]
+            d = c15.next_pow2(s["m"]) * 2 ** s["lb"]
+            cases.append({"id": i, "field": f, "hasher": h, "ext": e, "ln": 0, "ncoef": s["m"], "lb": s["lb"], "fold": s["fold"], "rem": s["rem"],
+                          "q": min(80, d - 1), "poly": "random", "strategy": "degplus", "param": k, "dup": False, "seed": seed + i})
+            i += 1
     obs = c15.run_cases(exe, cases, wd, "adversary")
     n = rej = skipped = 0
     per = {}
@@ -98,8 +110,8 @@ def run(tier, seed):
             skipped += 1
             continue
         n += 1
-        ctx = "degree bound 2^%d-1, blowup %d, folding %d, remainder degree %d, %d queries, %s/%s/ext%d" % (
-            c["ln"], 2 ** c["lb"], c["fold"], c["rem"], c["q"], c["field"], c["hasher"], c["ext"])
+        ctx = "degree bound %s, blowup %d, folding %d, remainder degree %d, %d queries, %s/%s/ext%d" % (
+            c15.bound_text(c), 2 ** c["lb"], c["fold"], c["rem"], c["q"], c["field"], c["hasher"], c["ext"])
         verdict = o.get("verify", o.get("prover_panic", "?"))
         expect_accept = (c.get("model_verdict") == "accept") if c["strategy"] == "model" else accepts.get(c["strategy"], False)
         if c["strategy"] == "partiallayer" and c["param"] == 1:
